@@ -218,6 +218,40 @@ def rule_pitfalls(prog, rep, tier, scope=None):
                     "lost" % (src(c, 60), val, val[:1], val[1:3]), loc(prog, c)))
             else:
                 rep.holds("STR-MEMBER", inst, loc(prog, c), "a character set")
+        # ---------------------------------------------------------------- DIRNAME-EMPTY
+        # `os.path.dirname("method.py")` is "" and `os.makedirs("")` / `os.mkdir("")` / `os.listdir("")`-style calls raise FileNotFoundError
+        # (makedirs even with exist_ok=True): a directory call on the bare `dirname(x)` fails for a file named without a directory,
+        # unless x was made absolute first (`abspath` / `realpath`) or the result is given a fallback (`dirname(x) or "."`).
+        for c in ast.walk(f.node):
+            if not (isinstance(c, ast.Call) and isinstance(c.func, (ast.Name, ast.Attribute)) and c.args) or enclosing_fn(c) is not f:
+                continue
+            en = prog.ext_name(c.func, c) or ""
+            if en not in ("os.makedirs", "os.mkdir", "os.chdir"):
+                continue
+            a0 = c.args[0]
+            if isinstance(a0, ast.Name):
+                ds = [st.value for st in ast.walk(f.node) if isinstance(st, ast.Assign) and any(isinstance(t, ast.Name) and t.id == a0.id for t in st.targets)]
+                a0 = ds[0] if len(ds) == 1 else a0
+            if not (isinstance(a0, ast.Call) and isinstance(a0.func, (ast.Name, ast.Attribute)) and (prog.ext_name(a0.func, a0) or "") == "os.path.dirname" and a0.args):
+                continue
+            n += 1
+            inner = a0.args[0]
+            made_absolute = isinstance(inner, ast.Call) and isinstance(inner.func, (ast.Name, ast.Attribute)) and (prog.ext_name(inner.func, inner) or "") in (
+                "os.path.abspath", "os.path.realpath")
+            guarded = False
+            for t, pol in expr_guards(c, stop=f.node):
+                if pol and any(isinstance(x, ast.Call) and isinstance(x.func, (ast.Name, ast.Attribute)) and (prog.ext_name(x.func, x) or "") == "os.path.dirname" for x in ast.walk(t)):
+                    guarded = True
+                if pol and isinstance(c.args[0], ast.Name) and any(isinstance(x, ast.Name) and x.id == c.args[0].id for x in ast.walk(t)):
+                    guarded = True
+            inst = "%s: %s" % (where, src(c, 50))
+            if made_absolute or guarded:
+                rep.holds("DIRNAME-EMPTY", inst, loc(prog, c), "the path was made absolute first / the empty directory name is excluded")
+            else:
+                rep.violation(Finding(
+                    "DIRNAME-EMPTY", where, "directory-call-on-bare-dirname:%s" % en,
+                    "%s: for a file named without a directory (`method.py`) `dirname` is the empty string and %s(\"\") raises FileNotFoundError (with exist_ok=True "
+                    "too) - an accepted invocation that names its file in the current directory ends in a traceback" % (src(c, 60), en), loc(prog, c)))
         # ---------------------------------------------------------------- SLICE-WRAP
         for sub in ast.walk(f.node):
             if not (isinstance(sub, ast.Subscript) and isinstance(sub.slice, ast.Slice)) or enclosing_fn(sub) is not f:
